@@ -9,6 +9,7 @@
 #include "c14_meta.hh"
 #include "c14_threads.hh"
 #include "c14_long.hh"
+#include "c14_priors.hh"
 
 int main(int argc, char** argv) {
   vf::Ctx& c = vf::init(argc, argv);
@@ -19,7 +20,7 @@ int main(int argc, char** argv) {
   string only = c.arg("only");
   auto want = [&](const char* s) { return only.empty() || only == s; };
   vf::Rng r = c.rng();
-  vf::Rng r2 = c.rng(2), r3 = c.rng(3), r4 = c.rng(4), r5 = c.rng(5), r6 = c.rng(6), r7 = c.rng(7), r8 = c.rng(8), r9 = c.rng(9), r10 = c.rng(10), r11 = c.rng(11), r12 = c.rng(12), r13 = c.rng(13), r14 = c.rng(14);
+  vf::Rng r2 = c.rng(2), r3 = c.rng(3), r4 = c.rng(4), r5 = c.rng(5), r6 = c.rng(6), r7 = c.rng(7), r8 = c.rng(8), r9 = c.rng(9), r10 = c.rng(10), r11 = c.rng(11), r12 = c.rng(12), r13 = c.rng(13), r14 = c.rng(14), r15 = c.rng(15);
 
   if (want("fdplans")) part_fdplans();
   if (want("exact")) part_exact();
@@ -49,6 +50,7 @@ int main(int argc, char** argv) {
   if (want("scopedfdmany")) part_scoped_fd_many();
   if (want("fgetslines")) part_fgets_manylines();
   if (want("historieslong")) part_stream_histories_long();
+  if (want("priors")) part_priors(r15);
 
   // scratch cleanup (harness-side)
   {
